@@ -1,11 +1,13 @@
 #!/bin/bash
-# usage: mut.sh <patch> <prop> [tier]  — apply a seeded change to /repo, run the property's check, undo it.
-# (development helper; never leaves /repo modified)
-patch=$1; prop=$2; tier=${3:-quick}
-cd /repo || exit 2
-if ! git diff --quiet; then echo "repo dirty"; exit 2; fi
-git apply "$patch" 2>/dev/null || git apply -3 "$patch" || { echo "patch does not apply"; git checkout -- .; exit 3; }
-cd ${VERIF_ROOT:-/verif} && VERIF_EVIDENCE_DIR=/scratch/mutev ./check $prop --tier $tier ${SEED:+--seed $SEED}; rc=$?
-git -C /repo checkout -- . ; git -C /repo reset -q
+# usage: mut.sh <patch> <prop> [tier]  — run the property's check against a seeded change applied to a SCRATCH worktree of
+# /repo's HEAD (development helper; /repo itself is never touched, so other checks can run at the same time).
+# The interface-level way (git -C /repo apply <patch>; ./check <prop>; git -C /repo checkout -- .) gives the same result.
+patch=$(readlink -f "$1"); prop=$2; tier=${3:-quick}
+wt=/scratch/mutwt.$$; rm -rf $wt
+git -C /repo worktree add --detach $wt HEAD >/dev/null 2>&1 || { echo "cannot create worktree"; exit 2; }
+(cd $wt && (git apply "$patch" 2>/dev/null || git apply -3 "$patch")) || { echo "patch does not apply"; git -C /repo worktree remove --force $wt; exit 3; }
+cd ${VERIF_ROOT:-/verif} && VERIF_REPO=$wt VERIF_EVIDENCE_DIR=/scratch/mutev ./check $prop --tier $tier ${SEED:+--seed $SEED}; rc=$?
+git -C /repo worktree remove --force $wt
+TAG=$(echo "$wt" | md5sum | cut -c1-8); rm -f ${VERIF_ROOT:-/verif}/bin/glcheck.$TAG ${VERIF_ROOT:-/verif}/bin/glcheck-race.$TAG ${VERIF_ROOT:-/verif}/.work/go.$TAG.*
 echo "exit=$rc"
 exit $rc
